@@ -63,8 +63,8 @@ class C03(nestedcheck.NestedCheck):
         level='proof', design='DESIGN.md 4/C03 + design_notes/C03.md',
         technique='Lean 4 proof (executable model of hierarchical dispatch, predicates P1-P5 as decidable checkers) + '
                   'differential correspondence with the real classes + verified monitors on implementation traces',
-        text='Lean 4 proofs: P4 (exit set / enter set exactly as the statement prescribes) for every machine-level transition on every admissible configuration; P1 (executed sources form an antichain, each at most once) for one trigger_nested pass in general and for whole events on machines whose transitions are all declared on the machine; the outcome of an unhandled event on flat state values. P1-P5 are decidable checkers run as monitors on the traces of all six hierarchical classes; the full statement is refuted by seven decide witnesses (re-dispatch per region, result overwritten, stale / re-entered source, ValueError on nested lists, local declarations exit their relative root, a child-scope success suppresses sibling regions), each replayed on the real classes and listed as an open finding.',
-        note="partial: P3 (order/completeness), the 'not exited since' half of P2 and P5's result rule are monitored but not proved (P2/P5 are false on the pinned tree); P5 is judged on unqueued machines only; model hand-written, tied by correspondence; 21 open findings with narrow signatures (clause + sub-kind + whether an active state declares the event locally).")
+        text='Lean 4 proofs on a model that follows the repaired nesting.py: P4 (exit set / enter set exactly as the statement prescribes) for EVERY transition, declared on the machine or inside a state, on every admissible configuration; for machines whose transitions are all declared on the machine: P1 (executed sources form an antichain), P2 both halves (source active when the event began, not exited since), P3 per pass (innermost first, nothing after an execution, completeness), P5 (True iff some transition executed; else False / MachineError / AttributeError by the flattened state value). P1-P5 are decidable checkers run as monitors on the traces of all six hierarchical classes (string and Enum states). The full statement is refuted for events declared inside state definitions, which are dispatched in separate passes per scope (four decide witnesses, replayed on the real classes, five open findings); the six defects closed by the adopted fixes are regression theorems and regression corpus cases.',
+        note="partial where findings remain open: all open findings require an ACTIVE state that declares the event in its own definition (signatures '...@local'); the pass theorems are stated on projections of the ghost segment (sOffers, execSources), not on the monitor's internal offer list; P5 is judged on unqueued machines only; model hand-written, tied by correspondence.")
 
     def assumptions(self):
         return (
